@@ -21,7 +21,8 @@ PARTIAL = ["score equivalence is proved for one covered-edge reversal (BDeu prod
            "localCounts, which the correspondence compares with the implementation's state_counts", "lgamma / log accuracy of scipy/math is trusted; scores are compared in the "
            "log domain against exact rationals"]
 RULE = ("discrete data frames on 2-5 columns (sparse: unobserved parent configurations and declared-but-unobserved states), all (variable, "
-        "parent list) pairs with <=2 parents in random order, ESS in {1,5,10,2.5}; non-trivial = at least one parent; distinct = case JSON")
+        "parent list) pairs with <=2 parents in random order, ESS in {1,5,10,2.5}; non-trivial = at least one parent; distinct = case JSON"
+        " Also: integer column names (single-parent families), parent sets as tuple / generator / iterator, undeclared states with unused categorical levels.")
 ASSUMPTIONS = ["exp(score) is rational for K2/BDeu/BDs; BIC/AIC = log R - c log N - pen with R rational"]
 BUDGET_QUICK = 80
 LEVEL_TEXT = ("Kernel-checked: the LRU score cache, for every call history and every max_size >= 1, returns exactly the base scorer's value "
